@@ -91,7 +91,8 @@ pub fn from_string_inner(ast: &DeriveInput) -> syn::Result<TokenStream> {
                     quote! { (#(#defaults),*) }
                 } else {
                     let defaults =
-                        ::core::iter::repeat(quote!(Default::default())).take(fields.unnamed.len());
+                        ::core::iter::repeat(quote!(::core::default::Default::default()))
+                            .take(fields.unnamed.len());
                     quote! { (#(#defaults),*) }
                 }
             }
@@ -107,7 +108,7 @@ pub fn from_string_inner(ast: &DeriveInput) -> syn::Result<TokenStream> {
                             #field: #func()
                         });
                     } else {
-                        defaults.push(quote! { #field: Default::default() });
+                        defaults.push(quote! { #field: ::core::default::Default::default() });
                     }
                 }
 
